@@ -1,10 +1,14 @@
 //! bounded <check> [--deep] [--anthem <path to the anthem binary built from /repo>]
 //! Prints one JSON object; exit status 0 = no failing input found, 1 = failing inputs found, 2 = the harness could not run.
+mod applic;
 mod aspsem;
 mod dom;
 mod external;
+mod files;
 mod hteval;
+mod prover;
 mod simp;
+mod subst;
 mod tff;
 mod trans;
 mod verify;
@@ -101,6 +105,34 @@ fn run_external(deep: bool) -> (String, Vec<trans::Failure>) {
     (format!("\"tasks\": {}, \"anthem_verify_runs\": {}, \"problems_read\": {}, \"interpretations_enumerated\": {}", t.0, t.1, t.2, t.3), fails)
 }
 
+fn run_prover(deep: bool) -> (String, Vec<trans::Failure>) {
+    let mut st = prover::PStats { runs: 0, problems: 0 };
+    let mut fails = Vec::new();
+    prover::check(deep, &mut st, &mut fails);
+    (format!("\"anthem_verify_runs_with_fake_prover\": {}, \"problems_compared\": {}", st.runs, st.problems), fails)
+}
+
+fn run_files(_deep: bool) -> (String, Vec<trans::Failure>) {
+    let mut runs = 0;
+    let mut fails = Vec::new();
+    files::check(&mut runs, &mut fails);
+    (format!("\"anthem_verify_runs\": {}", runs), fails)
+}
+
+fn run_applic(_deep: bool) -> (String, Vec<trans::Failure>) {
+    let mut runs = 0;
+    let mut fails = Vec::new();
+    applic::check(&mut runs, &mut fails);
+    (format!("\"anthem_runs\": {}", runs), fails)
+}
+
+fn run_subst(deep: bool) -> (String, Vec<trans::Failure>) {
+    let (mut pairs, mut skipped) = (0, 0);
+    let mut fails = Vec::new();
+    subst::check(deep, &mut pairs, &mut skipped, &mut fails);
+    (format!("\"substitutions\": {}, \"skipped_not_exactly_evaluable\": {}", pairs, skipped), fails)
+}
+
 fn run_trans(deep: bool) -> (String, Vec<trans::Failure>) {
     let corpus = trans::corpus(deep);
     let n_interp = if deep { 160 } else { 40 };
@@ -141,6 +173,10 @@ fn main() {
         "strong" => run_strong(deep),
         "gamma" => run_gamma(deep),
         "external" => run_external(deep),
+        "prover" => run_prover(deep),
+        "files" => run_files(deep),
+        "applic" => run_applic(deep),
+        "subst" => run_subst(deep),
         _ => { eprintln!("usage: bounded trans [--deep]"); std::process::exit(2); }
     };
     let harness_broken = fails.iter().any(|f| f.property == "harness");
